@@ -273,6 +273,8 @@ fn copy_dir(from: &Path, to: &Path) {
 enum Op {
     Set(&'static str, Vec<u8>),
     Sparse(&'static str, u64),
+    /// the artifact name is a file-level symlink (ConfigMap / Nix-store style deployments) to a sparse file of that length
+    SymlinkSparse(&'static str, u64),
     Remove(&'static str),
     SetOwned(String, Vec<u8>),
 }
@@ -285,11 +287,28 @@ fn apply(dir: &Path, ops: &[Op]) {
                 let _ = std::fs::remove_file(dir.join(n));
                 std::fs::File::create(dir.join(n)).unwrap().set_len(*len).unwrap()
             }
+            Op::SymlinkSparse(n, len) => {
+                let _ = std::fs::remove_file(dir.join(n));
+                let t = symlink_target_path();
+                std::fs::File::create(&t).unwrap().set_len(*len).unwrap();
+                std::os::unix::fs::symlink(&t, dir.join(n)).unwrap();
+            }
             Op::Remove(n) => {
                 let _ = std::fs::remove_file(dir.join(n));
             }
         }
     }
+}
+
+/// sparse symlink targets live outside the artifact directories (which are enumerated) and are removed at exit
+fn symlink_targets_dir() -> std::path::PathBuf {
+    std::env::temp_dir().join(format!("verif-loaders-symlink-targets-{}", std::process::id()))
+}
+fn symlink_target_path() -> std::path::PathBuf {
+    static N: std::sync::atomic::AtomicU64 = std::sync::atomic::AtomicU64::new(0);
+    let d = symlink_targets_dir();
+    std::fs::create_dir_all(&d).unwrap();
+    d.join(format!("t{}", N.fetch_add(1, std::sync::atomic::Ordering::SeqCst)))
 }
 
 fn config_token(bytes: &[u8]) -> Vec<i128> {
@@ -472,6 +491,7 @@ fn file_ops(name: &'static str, canon_bytes: &[u8], other: &[(&str, Vec<u8>)], c
         }
     }
     v.push((format!("{name}:oversized-sparse"), vec![Op::Sparse(name, cap + 1)]));
+    v.push((format!("{name}:oversized-symlink"), vec![Op::SymlinkSparse(name, cap + 1)]));
     v.push((format!("{name}:missing"), vec![Op::Remove(name)]));
     v
 }
@@ -479,7 +499,7 @@ fn file_ops(name: &'static str, canon_bytes: &[u8], other: &[(&str, Vec<u8>)], c
 /// keep every cheap scenario (rejected at the file read: oversized / missing) and a seeded sample of `k` of the others
 /// (each of which makes the loader rebuild a recursive circuit)
 fn sample_heavy(all: &[(String, Vec<Op>)], k: usize, r: &mut Rng) -> Vec<(String, Vec<Op>)> {
-    let cheap = |t: &str| t.ends_with("oversized-sparse") || t.ends_with("missing");
+    let cheap = |t: &str| t.ends_with("oversized-sparse") || t.ends_with("oversized-symlink") || t.ends_with("missing");
     // the structured tail flips are always kept when anything heavy is sampled at all
     let must = |t: &str| k > 0 && t.ends_with("bitflip-tail");
     let mut out: Vec<(String, Vec<Op>)> = all.iter().filter(|(t, _)| cheap(t) || must(t)).cloned().collect();
@@ -617,6 +637,21 @@ fn c17(keep: Option<PathBuf>) {
         file_case("files:common-oversized-sparse".into(), full(&vc_v), Some((cap + 1, vec![])), &mut cases);
         file_case("files:both-oversized-sparse".into(), Some((cap + 1, vec![])), Some((1u64 << 41, vec![])), &mut cases);
         file_case("files:verifier-huge-sparse".into(), Some((1u64 << 40, vec![])), full(&vc_c), &mut cases);
+        // the same through file-level symlinks (the metadata of the link itself is a few dozen bytes)
+        for (tag, which) in [("files:verifier-oversized-symlink", 0), ("files:common-oversized-symlink", 1)] {
+            file_case(tag.into(), if which == 0 { None } else { full(&vc_v) }, if which == 1 { None } else { full(&vc_c) }, &mut Vec::new());
+            let p = if which == 0 { &vp } else { &cp };
+            let t = symlink_target_path();
+            std::fs::File::create(&t).unwrap().set_len(cap + 1).unwrap();
+            std::os::unix::fs::symlink(&t, p).unwrap();
+            let out = cls17(no_panic(|| WormholeVerifier::new_from_files(&vp, &cp)));
+            let _ = std::fs::remove_file(p);
+            let big: (Seg, Vec<u8>) = (vec![1, cap as i128 + 1], vec![]);
+            let okv: (Seg, Vec<u8>) = (vec![1, vc_v.len() as i128], vc_v.clone());
+            let okc: (Seg, Vec<u8>) = (vec![1, vc_c.len() as i128], vc_c.clone());
+            let ((mv, bv), (mc, bc)) = if which == 0 { (big, okc) } else { (okv, big) };
+            cases.push((1702, tag.into(), vec![mv, seg_bytes(&bv), mc, seg_bytes(&bc), seg_bytes(&keccak(&bv)), seg_bytes(&keccak(&bc)), seg_bytes(&pin_v), seg_bytes(&pin_c), vec![1]], out));
+        }
         // exactly at the cap: read and rejected by the pin, not by the size check
         file_case("files:verifier-at-cap".into(), Some((cap, vec![0u8; cap as usize])), full(&vc_c), &mut cases);
     }
@@ -710,6 +745,7 @@ fn c17(keep: Option<PathBuf>) {
         let cfg_ops: Vec<(String, Vec<Op>)> = vec![
             ("config:missing".into(), vec![Op::Remove("config.json")]),
             ("config:oversized-sparse".into(), vec![Op::Sparse("config.json", cap + 1)]),
+            ("config:oversized-symlink".into(), vec![Op::SymlinkSparse("config.json", cap + 1)]),
             ("config:garbage".into(), vec![Op::Set("config.json", b"{not json".to_vec())]),
             ("config:n0".into(), vec![Op::Set("config.json", cfg_json(0, Some(1)))]),
             ("config:n65".into(), vec![Op::Set("config.json", cfg_json(65, Some(1)))]),
@@ -727,6 +763,7 @@ fn c17(keep: Option<PathBuf>) {
             add(0, "template:garbage".into(), vec![Op::Set("dummy_proof.bin", vec![7u8; 1000])], vec![]);
         }
         add(0, "template:oversized-sparse".into(), vec![Op::Sparse("dummy_proof.bin", cap + 1)], vec![]);
+        add(0, "template:oversized-symlink".into(), vec![Op::SymlinkSparse("dummy_proof.bin", cap + 1)], vec![]);
         for (t, o) in leaf_files.iter().chain(cfg_ops.iter()) {
             add(0, t.clone(), o.clone(), vec![]);
         }
@@ -820,6 +857,7 @@ fn c17(keep: Option<PathBuf>) {
         apply(&t4, &[Op::Sparse("verifier.bin", wormhole_verifier::MAX_VERIFIER_ARTIFACT_BYTES + 1)]);
     }
     let _ = std::fs::remove_dir_all(&root);
+    let _ = std::fs::remove_dir_all(symlink_targets_dir());
     guard.restore();
     emit(cases, notes);
 }
